@@ -1144,6 +1144,27 @@ def quoter_contract(name):
     return fn
 
 
+def unquoter_contract(name):
+    """A decoding function of yarl._quoters at its call sites: an opaque function of the text
+    ('' for ''); what it computes is the subject of C06's bounded stand-in, the contracts of the
+    decoded accessors only pin *which* decoder each accessor applies to which raw component."""
+    def fn(ex, st, args, kwargs, node):
+        s = args[0]
+        if isinstance(s, VNone):
+            yield NONE, st
+            return
+        if not isinstance(s, VStr):
+            raise Unsupported(f"{name} applied to {s!r}")
+        if s.conc is not None and s.conc == "":
+            yield lit(""), st
+            return
+        r = opaque_str(st.ctx, "unquote[" + name + "]", s)
+        st.ctx.add(z3.Implies(s.len() == 0, r.len() == 0))
+        ex.assumed_contracts.add(f"yarl._quoters:{name} (opaque function of the text here; decided by the bounded stand-in of C06)")
+        yield r, st
+    return fn
+
+
 def install(ex):
     from .engine import Prim
     import unicodedata
@@ -1182,6 +1203,8 @@ def install(ex):
         from contracts import spec_quote
         for name in spec_quote.QUOTERS:
             add(getattr(_q, name), "quoter." + name, quoter_contract(name))
+        for name in ("UNQUOTER", "PATH_UNQUOTER", "PATH_SAFE_UNQUOTER", "QS_UNQUOTER"):
+            add(getattr(_q, name), "unquoter." + name, unquoter_contract(name))
     except ImportError:
         pass
     try:
